@@ -98,6 +98,11 @@ def to_seq(I, ctx, v):
         return v
     if isinstance(v, range):
         return tuple(v)
+    if isinstance(v, Ref) and v.kind == 'iter':
+        # a one-shot iterator (generator, filter object, ...): what is left is yielded once, then it is exhausted
+        c = ctx.heap[v.cell]
+        ctx.put(v, ())
+        return c
     if isinstance(v, (Ref, Snapshot)):
         c, heap = content(I, ctx, v)
         if isinstance(c, (tuple, SymSeq)):
@@ -1019,6 +1024,17 @@ def m_chain_from_iterable(I, ctx, args, kwargs, node):
             s2 = as_symseq(s_)
             out = seq_concat(I, ctx, out, SymSeq(s2.slots, flags=[And_(g, f) for f in s2.flags]))
     return out
+
+
+@model(itertools.combinations)
+def m_combinations(I, ctx, args, kwargs, node):
+    """assumption 4 of the design: itertools.combinations(xs, k) yields exactly the k-subsequences of xs by index,
+    in lexicographic index order -- executed by CPython itself on the concrete index structure"""
+    seq = to_seq(I, ctx, args[0])
+    k = concrete_int(b2i(args[1]))
+    if not isinstance(seq, tuple) or k is None:
+        raise PyvcUnsupported('combinations of a symbolic-length sequence')
+    return tuple(tuple(seq[i] for i in idx) for idx in itertools.combinations(range(len(seq)), k))
 
 
 @model(itertools.islice)
